@@ -175,7 +175,7 @@ def run(ctx):
         p_ops.bool_cmp_atoms = True
         SC.bool_operand_lane(ctx, ctx.rng("boolops"), select, findings.django_semantic_triggers, extra_case=case_extra, profile=p_ops)
         SC.in_list_shape_lane(ctx, ctx.rng("inshape"), select, findings.django_semantic_triggers, extra_case=case_extra, profile=p)
-        SC.nullable_key_lane(ctx, ctx.rng("nullkey"), select, findings.django_semantic_triggers, extra_case=case_extra)
+        SC.nullable_key_lane(ctx, ctx.rng("nullkey"), select, findings.django_semantic_triggers, extra_case=case_extra, null_items=True)
         SC.int_vs_decimal_lane(ctx, ctx.rng("intdec"), select, findings.django_semantic_triggers, extra_case=case_extra, profile=p)
         SC.math_of_literal_lane(ctx, ctx.rng("mathlit"), select, findings.django_semantic_triggers, extra_case=case_extra, profile=p)
         SC.neutral_boolean_lane(ctx, ctx.rng("neutral"), select, findings.django_semantic_triggers, extra_case=case_extra, profile=p)
